@@ -36,17 +36,17 @@ def visitors(P):
     return js, ts
 
 
-def wiring_of(P, fn, opt_adt):
+def wiring_of(P, fn, opt_adt, pred=None):
     """{option field: set of (config adt, field)} from a from_config function: struct literal fields and
     clone_into(&config.., &mut result.field) calls and assignments `result.f = ..` — seen with same-crate helpers inlined and
     with the return summaries of workspace callees (a positive "derives from" requirement), so that a helper that fetches a
     sub-config or fills part of the options does not hide the dependency"""
     from templates import inlined
     _P[0] = P
-    fn = inlined(P, fn)
+    fn = inlined(P, fn, pred=pred) if pred else inlined(P, fn)
     pv = Prov(fn)
     out = {}
-    for n in fn.walk():
+    for i, (n, _par) in enumerate(fn.nodes()):
         if n.get("k") == "Struct" and "rest" not in n and norm(n.get("adt")) == opt_adt:
             for f in n["fields"]:
                 out.setdefault(f["name"], set()).update(_cfg_fields(pv.deep_atoms(f["e"])))
@@ -60,6 +60,9 @@ def wiring_of(P, fn, opt_adt):
             # include the conditions guarding the assignment
             out.setdefault(n["l"]["field"], set()).update(_cfg_fields(pv.deep_atoms(n["r"])))
             out[n["l"]["field"]].add(("<assigned>", "<assigned>"))
+            for c in enclosing_contexts(fn, i):
+                if c[0] in ("if-then", "if-else"):
+                    out[n["l"]["field"]].update(_cfg_fields(pv.deep_atoms(c[1]["cond"])))
         elif n.get("k") == "MethodCall" and n["recv"].get("k") == "Field" and norm(n["recv"].get("adt")) == opt_adt \
                 and n["method"] in ("extend", "insert", "push", "clone_from"):
             out.setdefault(n["recv"]["field"], set()).update(_cfg_fields(pv.deep_atoms(n["args"])))
@@ -144,6 +147,16 @@ def r14a(P, R):
             else:
                 R.check("R14-a", "base-options:" + short(f0.path), ok, "base options come from OperationBasePrinterOptions::from_config(config)",
                         "%s does not take its base options from OperationBasePrinterOptions::from_config(config)" % f0.path, loc=f0.loc())
+            # the shared options are decided by the shared from_config alone: a side that writes one of them itself derives it from
+            # other config leaves than the other side does
+            own = wiring_of(P, f0, BASEOPT, pred=stable_pred(lambda g: g.path != base_fc.path and not (g.impl_trait or "").endswith("default::Default")))
+            for fld, leaves in sorted(own.items()):
+                R.violated("R14-a", "base-options-override:%s@%s" % (fld, short(f0.path)),
+                           "%s writes the shared base option `%s` itself, on top of OperationBasePrinterOptions::from_config: on this side the option no "
+                           "longer derives from the same config keys as on the other printer's side (which takes it from the shared from_config "
+                           "alone), so the declaration file and the JS module name/export differently for some configurations" % (f0.path, fld), loc=f0.loc())
+            if not own:
+                R.holds("R14-a", "base-options-override:" + short(f0.path), "no shared base option is written outside OperationBasePrinterOptions::from_config", loc=f0.loc())
 
     # both front ends derive their options from the config they were given
     def loader():
